@@ -127,6 +127,38 @@ print(json.dumps(res))
 '''
 
 
+def source_fails_mid_transfer(ctx, rng):
+    """the source raises an I/O error on a later block: the server tells the client (ERROR) and the transfer is over at once
+    -- not only after the silence period"""
+    for good in (1, 2, 3):
+        for B in (8, 512):
+            S = Session({'f': ('eio', bytes(range(256)) * 16, good)})
+            try:
+                now = 10 ** 9
+                sent = S.packet(0, 1, b'\0\1f\0octet\0blksize\0' + str(B).encode() + b'\0timeout\x0060\0', now)
+                ctx.case(('eio', good, B), True, 'source-fails')
+                if not S.sim.subs:
+                    continue
+                tid = sent[0][0]
+                sub = S.sim.subs[tid]
+                blk, errors = 0, 0
+                for _ in range(good + 3):
+                    now += 1000
+                    out = S.packet(tid, 1, struct.pack('!HH', 4, blk), now)
+                    if out and out[0][1][:2] == b'\0\5':
+                        errors += 1
+                        break
+                    if not out:
+                        break
+                    blk = out[0][1][2] * 256 + out[0][1][3]
+                if errors and not sub.done:
+                    ctx.violation('tftpd.end/source-error-not-done', f'the source failed on read #{good + 1} (block size {B}); the client was sent an ERROR but the '
+                                  f'transfer is still registered as running (it would linger for 5 x timeout = 300 s)', dict(events=[list(e) for e in S.events]))
+                    return
+            finally:
+                S.close()
+
+
 def boot_resources(ctx):
     """the same accounting for a BootServer serving files out of FAT images (dirty volumes, empty files owning a cluster)"""
     import tempfile
@@ -179,9 +211,10 @@ def scenario(ctx, R, rng, content, B, tmo_opt, silence_after, ending, tick_gap):
             blk = cur[2] * 256 + cur[3]
         if ending == 'error':
             now += 5
-            S.packet(tid, 1, b'\0\5\0\0quit\0', now)
+            code = rng.choice([0, 1, 2, 3, 4, 5, 5, 6, 7, 8])
+            S.packet(tid, 1, struct.pack('!HH', 5, code) + b'quit\0', now)
             if not sub.done:
-                ctx.violation('tftpd.end/client-error-not-done', 'client ERROR did not end the transfer',
+                ctx.violation('tftpd.end/client-error-not-done', f'client ERROR (code {code}) did not end the transfer',
                               dict(events=[list(e) for e in S.events]))
         elif ending == 'finalack':
             pass
@@ -276,6 +309,7 @@ def run(ctx, build):
         ac = res.get('after_close', {})
         if not ac.get('ok') or ac.get('alive') or ac.get('reaper_alive'):
             ctx.violation('tftpd.real/server-close', f'server_close() left transfers running: {ac}', dict(result=res))
+    source_fails_mid_transfer(ctx, rng)
     boot_resources(ctx)
 
 
